@@ -92,7 +92,16 @@ auto make_slot(const Desc& d)
     NT l = nt_of(rd.used ? rd.l : kNts - 1);
     int prec = rd.used ? rd.prec : 0;
     constexpr int n = kSlots[I].n;
-    if constexpr (n == 0) return (l()[prec]) >= vh::RuleF{int(I)};
+    // odd slots attach a NAMED functor object (an lvalue, as `auto f = ...; rule >= f` does), even slots a temporary
+    static vh::RuleF named{int(I)};
+    if constexpr (I % 2 == 1)
+    {
+        if constexpr (n == 0) return (l()[prec]) >= named;
+        else if constexpr (n == 1) return (l(sym<I, 0>(d))[prec]) >= named;
+        else if constexpr (n == 2) return (l(sym<I, 0>(d), sym<I, 1>(d))[prec]) >= named;
+        else return (l(sym<I, 0>(d), sym<I, 1>(d), sym<I, 2>(d))[prec]) >= named;
+    }
+    else if constexpr (n == 0) return (l()[prec]) >= vh::RuleF{int(I)};
     else if constexpr (n == 1) return (l(sym<I, 0>(d))[prec]) >= vh::RuleF{int(I)};
     else if constexpr (n == 2) return (l(sym<I, 0>(d), sym<I, 1>(d))[prec]) >= vh::RuleF{int(I)};
     else return (l(sym<I, 0>(d), sym<I, 1>(d), sym<I, 2>(d))[prec]) >= vh::RuleF{int(I)};
